@@ -5,18 +5,20 @@ it for the callee (never the callee's body).  The class-specific part is only th
 spec functions Den / good_row at the class under proof (taken from the property statements).
 
 Row clauses for a yielded row R of node n called with (sigma, f), m := R (+) sigma, lbl := n._is_false_ at the yield:
-  R0 locality      dom R  subset  dom sigma  U  SubIds(n)
+  R0 locality      dom R  subset  dom sigma  U  SubIds(n)  U  {id of the consumer}   (the consumer may have put its own
+                   id into a dict that is yielded again)
   R1 consistency   R and sigma agree where both are defined
   R2 legitimacy    good_row(n, m)      (variables in their domains, mapped entries related to their inputs)
   R3 label         cond_pos(n)  ->  for every total rho extending m with WD(n, rho):  lbl == not Den(n, rho)
-  R4 filter        cond_pos(n) and not f  ->  not lbl
+  R4 filter        filt(n) and not f  ->  not lbl       filt(n) := truth_node(n) or the library's own position test
+                   `n is n._conditions_root_ or isinstance(n._parent_, LogicalOperator)` evaluated when n is called
   R5 own value     is_value(n)  ->  nid(n) in dom R;   Binds(n) subset dom m  (ids every row must bind)
 Stream clause
-  C1 completeness  for every rho extending sigma with WD(n, rho) and (cond_pos(n) -> Den(n, rho) or f):
+  C1 completeness  for every rho extending sigma with WD(n, rho) and (filt(n) -> Den(n, rho) or f):
                    some yielded row has rho extending (R (+) sigma)     [or was suppressed as a duplicate]
 Precondition
   P  good_row(n, sigma) and ( NoOps(n, sigma)  or  (nid(n) in dom sigma and not cond_pos(n)) )
-  P2 cond_pos(n) == (n is n._conditions_root_ or isinstance(n._parent_, LogicalOperator))   (position recognisable)
+     lab(n) := cond_pos(n) or truth_node(n)   (the consumer reads the label)
 """
 from __future__ import annotations
 
@@ -42,6 +44,12 @@ def WD(n, rho):
     return Z.WD(n, rho)
 
 
+def filt(n, eval_parent):
+    """the node drops false rows when yield_when_false is off: it is of a class that always filters by its truth, or it
+    recognises (by the library's own position test, evaluated when it is called) that it stands as a condition"""
+    return z3.Or(Z.truth_node(n), cond_pos_def(n, eval_parent))
+
+
 def lab(n):
     """the node's label / truth filter is meaningful: it stands as a condition, or it is of a class that always
     filters by its own truth (query descriptors, quantifiers, comparators, logical operators)"""
@@ -56,39 +64,47 @@ def pre_I(n, sig: Z.ZMap):
     return z3.And(Z.good_row(n, sig), z3.Or(no_ops(n, sig), z3.And(sig.contains(Z.nid(n)), z3.Not(lab(n)))))
 
 
-def leaf_ext(n, a: Z.ZMap, n2, b2: Z.ZMap, b: Z.ZMap):
-    """Lemma schema LeafExt (valid for the pointwise definition of good_row, checked in lemmas/):
+def leaf_ext(n, a: Z.ZMap, others, b: Z.ZMap):
+    """Lemma schema LeafExt (valid for the pointwise definition of good_row; checked in lemmas/leafext.py):
     a row `a` that is good for n stays good for n when it is consistently extended to `b` by entries that, inside
-    n's subtree, are only leaf (variable) entries taken from a row b2 that is good for n2 (b extends b2 too)."""
+    n's subtree, are only leaf (variable) entries, each taken from some row b_i that is good for a node n_i whose
+    subtree contains it (b extends b_i too)."""
     new_in_n = z3.Map(Z.AND_D, z3.Map(Z.AND_D, b.has, z3.Map(Z.NOT_D, a.has)), Z.SubIds(n))
-    allowed = z3.Map(Z.AND_D, z3.Map(Z.AND_D, LeafIds, Z.SubIds(n2)), b2.has)
-    return z3.Implies(z3.And(Z.good_row(n, a), Z.good_row(n2, b2), b.extends(a), b.extends(b2),
-                             z3.Map(Z.IMP_D, new_in_n, allowed) == TRUE_IDS),
+    allowed = z3.K(Z.I, z3.BoolVal(False))
+    for (ni, bi) in others:
+        allowed = z3.Map(Z.OR_D, allowed,
+                         z3.If(z3.And(Z.good_row(ni, bi), b.extends(bi)), z3.Map(Z.AND_D, Z.SubIds(ni), bi.has),
+                               z3.K(Z.I, z3.BoolVal(False))))
+    allowed = z3.Map(Z.AND_D, allowed, LeafIds)
+    return z3.Implies(z3.And(Z.good_row(n, a), b.extends(a), z3.Map(Z.IMP_D, new_in_n, allowed) == TRUE_IDS),
                       Z.good_row(n, b))
 
 
 def good_hyps(st, n, b: Z.ZMap):
     """LeafExt instances relevant for proving good_row(n, b) from the facts known on this path."""
     facts = st.ghost.get('goodfacts', [])
+    others = [(n2, b2) for (n2, b2) in facts if not n2.eq(n)]
     out = []
     for (na, a) in facts:
-        if not na.eq(n):
-            continue
-        for (n2, b2) in facts:
-            if n2.eq(n):
-                continue
-            out.append(leaf_ext(n, a, n2, b2, b))
+        if na.eq(n):
+            out.append(leaf_ext(n, a, others, b))
     return out
 
 
-def rely_growth(n, new: Z.ZMap, old: Z.ZMap, sig: Z.ZMap):
-    """what a consumer may do to a dict the producer n yielded: extend it consistently, and inside the producer's
-    subtree only with entries of the sigma the producer was called with."""
-    added_in_n = z3.Map(Z.AND_D, z3.Map(Z.AND_D, new.has, z3.Map(Z.NOT_D, old.has)), Z.SubIds(n))
-    return z3.And(new.extends(old), z3.Map(Z.IMP_D, added_in_n, sig.has) == TRUE_IDS, new.consistent_with(sig))
+CONSUMER_ID = z3.Int('consumer_id')      # id of the node that consumes the rows of the node under proof
 
 
-position_sensitive = z3.Function('position_sensitive', Z.Node, Z.B)   # class uses the position test (mappings, quantifiers, predicates)
+def with_id(ids, i):
+    return z3.Store(ids, i, z3.BoolVal(True))
+
+
+def rely_growth(n, new: Z.ZMap, old: Z.ZMap, sig: Z.ZMap, consumer_id):
+    """what a consumer may do to a dict the producer n yielded: extend it consistently with entries of the sigma the
+    producer was called with and with a binding for the consumer's own id"""
+    return z3.And(new.extends(old), new.subset_of_ids(with_id(Z.ids_union(old.has, sig.has), consumer_id)),
+                  new.consistent_with(sig))
+
+
 Binds = z3.Function('Binds', Z.Node, Z.ArrIB)    # ids every row of the node binds (e.g. the selected variables of a descriptor)
 
 
@@ -186,8 +202,13 @@ class EvalContract(LibModel):
                           Z.node_of(Z.nid(n)) == n)
                 # precondition P, with good_row unfolded at this class
                 st.assume(pre_I(n, sig))
-                if self.uses_position:
-                    st.assume(position_sensitive(n), Z.cond_pos(n) == cond_pos_def(n, st.fields['eval_parent']))
+                st.ghost['filt_self'] = filt(n, st.fields['eval_parent'])
+                st.assume(z3.Not(z3.Select(Z.SubIds(n), CONSUMER_ID)), z3.Not(z3.Select(LeafIds, CONSUMER_ID)))
+                # P2: a node that recognises a condition position is read as a condition by its consumer
+                st.assume(z3.Implies(st.ghost['filt_self'], lab(n)))
+                bd = self.binds_def(n)
+                if bd is not None:
+                    st.assume(Binds(n) == bd)
                 st.assume(isa(str_const('LogicalOperator'), n) == z3.BoolVal(
                     bool(self.cls and self.src.is_subclass(self.cls, 'LogicalOperator'))))
                 st.assume(Z.good_row(n, sig) == self.good(n, sig))
@@ -201,7 +222,7 @@ class EvalContract(LibModel):
                     st.ghost['covered'] = z3.BoolVal(False)
                     st.ghost['envs'] = [rho_t]
                     st.assume(Z.ext(rho_t, sig), WD(n, rho_t),
-                              z3.Implies(lab(n), z3.Or(Z.Den(n, rho_t), st.ghost['ywf_arg'])))
+                              z3.Implies(st.ghost['filt_self'], z3.Or(Z.Den(n, rho_t), st.ghost['ywf_arg'])))
                     st.assume(*[q(rho_t) for q in st.qf])
                 if eng.feasible(st):
                     sts.append(st)
@@ -235,15 +256,19 @@ class EvalContract(LibModel):
             return Z.ZMap.empty(), None
         raise OutOfSubset(f"sources argument {s}")
 
-    def assume_row(self, st, c, sig: Z.ZMap, f, R: Z.ZMap):
+    def assume_row(self, st, c, sig: Z.ZMap, f, R: Z.ZMap, filt_c=None):
         m = R.merge(sig)
         lbl = z3.Select(st.fields['is_false'], c)
-        st.assume(R.subset_of_ids(Z.ids_union(sig.has, Z.SubIds(c))),
+        if filt_c is None:
+            filt_c = Z.truth_node(c)       # weakest assumption: only classes that always filter
+        st.assume(R.subset_of_ids(with_id(Z.ids_union(sig.has, Z.SubIds(c)), Z.nid(st.ghost['self']))),
                   R.consistent_with(sig),
                   Z.good_row(c, m),
-                  z3.Implies(z3.And(lab(c), z3.Not(f)), z3.Not(lbl)),
+                  z3.Implies(z3.And(filt_c, z3.Not(f)), z3.Not(lbl)),
                   z3.Implies(Z.is_value(c), R.contains(Z.nid(c))),
-                  z3.Map(Z.IMP_D, Binds(c), m.has) == TRUE_IDS)
+                  z3.Map(Z.IMP_D, Binds(c), m.has) == TRUE_IDS,
+                  # an entry under this node's own id can only have been put there by this node (rely@ obligations)
+                  self.own(st.ghost['self'], m))
         st.qf.append(lambda rho, m=m, c=c, lbl=lbl: z3.Implies(z3.And(Z.ext(rho, m), lab(c), WD(c, rho)),
                                                                  lbl == z3.Not(Z.Den(c, rho))))
         for e in st.ghost.get('envs', []):
@@ -287,7 +312,7 @@ class EvalContract(LibModel):
         if sref is not None and 'rely' in extra_refs.get(sref, ()):
             # the consumer may have consistently extended sigma itself (it was yielded): sigma_now grows
             grown = Z.ZMap.fresh('sg')
-            st.assume(rely_growth(st.ghost['self'], grown, st.ghost['sigma_now'], st.ghost['sigma_now']))
+            st.assume(rely_growth(st.ghost['self'], grown, st.ghost['sigma_now'], st.ghost['sigma_now'], CONSUMER_ID))
             st.ghost['sigma_now'] = grown
         entries = dict(st.ghost.get('loop_entry', {}))
         for ref, kinds in list(extra_refs.items()):
@@ -301,18 +326,23 @@ class EvalContract(LibModel):
                 # who may add ids: the callee that is handed this dict as its sigma (its own subtree, R0) and this
                 # node itself (its own id)
                 who = Z.SubIds(st.ghost['self'])
+                owner = None
                 if sigma_of_callee is not None and ref == sigma_of_callee[0]:
-                    who = z3.Store(Z.SubIds(sigma_of_callee[1]), Z.nid(st.ghost['self']), z3.BoolVal(True))
+                    owner = sigma_of_callee[1]
+                    who = z3.Store(Z.SubIds(owner), Z.nid(st.ghost['self']), z3.BoolVal(True))
+                    # the callee keeps the dict it extends legitimate (R2 of the rows it yields through it)
+                    st.assume(Z.good_row(owner, newc))
+                    st.ghost['goodfacts'] = st.ghost.get('goodfacts', []) + [(owner, newc)]
                 if ref == sref:
                     # the parameter sigma: its content extends both what it was before the loop and sigma as
                     # (possibly) grown by the consumer; new ids only from this node's subtree
                     sn = st.ghost['sigma_now']
                     st.assume(newc.extends(oldc), newc.extends(sn), self.own(st.ghost['self'], newc),
-                              newc.subset_of_ids(Z.ids_union(Z.ids_union(oldc.has, sn.has), who)))
-                    entries[ref] = (oldc, 'sigma', who)
+                              newc.subset_of_ids(with_id(Z.ids_union(Z.ids_union(oldc.has, sn.has), who), CONSUMER_ID)))
+                    entries[ref] = (oldc, 'sigma', who, owner)
                 else:
                     st.assume(self.dict_frame(st, oldc, newc, relied, who))
-                    entries[ref] = (oldc, relied, who)
+                    entries[ref] = (oldc, relied, who, owner)
                 st.dicts[ref] = newc
                 del extra_refs[ref]
         st.ghost['loop_entry'] = entries
@@ -321,7 +351,7 @@ class EvalContract(LibModel):
                 new = Z.ZMap.fresh('rl')
                 if ref == sref:
                     new = st.ghost['sigma_now']
-                st.assume(rely_growth(st.ghost['self'], new, st.dicts[ref], st.ghost['sigma_now']))
+                st.assume(rely_growth(st.ghost['self'], new, st.dicts[ref], st.ghost['sigma_now'], CONSUMER_ID))
                 st.dicts[ref] = new
                 continue
             if ref not in syn:
@@ -395,16 +425,21 @@ class EvalContract(LibModel):
     def dict_frame(self, st, old: Z.ZMap, new: Z.ZMap, relied, who):
         n = st.ghost['self']
         if relied:
-            return z3.And(new.extends(old), self.own(n, new))
+            sn = st.ghost['sigma_now']
+            return z3.And(new.extends(old), self.own(n, new),
+                          new.subset_of_ids(with_id(Z.ids_union(Z.ids_union(old.has, who), sn.has), CONSUMER_ID)))
         return z3.And(new.extends(old), new.subset_of_ids(Z.ids_union(old.has, who)), self.own(n, new))
 
     def check_sigma_frame(self, eng, st, ordinal):
-        for ref, (oldc, relied, who) in st.ghost.get('loop_entry', {}).items():
+        for ref, (oldc, relied, who, owner) in st.ghost.get('loop_entry', {}).items():
+            if ref in st.dicts and owner is not None:
+                eng.oblige(st, f"frame@dict/loop{ordinal}/legit", Z.good_row(owner, st.dicts[ref]),
+                           hyp=good_hyps(st, owner, st.dicts[ref]), line=0)
             if ref in st.dicts and relied == 'sigma':
                 cur, sn, n = st.dicts[ref], st.ghost['sigma_now'], st.ghost['self']
                 eng.oblige(st, f"frame@dict/loop{ordinal}",
                            z3.And(cur.extends(oldc), cur.extends(sn), self.own(n, cur),
-                                  cur.subset_of_ids(Z.ids_union(Z.ids_union(oldc.has, sn.has), who))), line=0)
+                                  cur.subset_of_ids(with_id(Z.ids_union(Z.ids_union(oldc.has, sn.has), who), CONSUMER_ID))), line=0)
                 continue
             if ref in st.dicts:
                 eng.oblige(st, f"frame@dict/loop{ordinal}", self.dict_frame(st, oldc, st.dicts[ref], relied, who), line=0)
@@ -522,13 +557,10 @@ class EvalContract(LibModel):
             eng.oblige(st, f"pre@call{tag}.L{line}", pre_I(c, sig), line=line)
             return
         eng.oblige(st, f"pre@call{tag}.L{line}", pre_I(c, sig), hyp=good_hyps(st, c, sig), line=line)
-        # P2: a callee whose behaviour depends on its position can recognise it (the caller made itself the
-        # evaluation parent)
-        p2 = z3.Implies(position_sensitive(c), Z.cond_pos(c) == cond_pos_def(c, st.fields['eval_parent']))
+        p2 = z3.Implies(filt(c, st.fields['eval_parent']), lab(c))
         if not self.position_assumed(st, c):
             eng.oblige(st, f"pre@call{tag}.L{line}/position", p2, line=line)
         st.assume(p2)
-        st.assume(pre_I(c, sig))
 
     def loop_stream(self, eng, st, target, body, stream, ordinal, node):
         c = stream.data['node']
@@ -537,6 +569,7 @@ class EvalContract(LibModel):
         st = st.clone()
         self.check_callee_pre(eng, st, c, sig, stream.data['line'], f"#loop{ordinal}")
         rho = st.ghost.get('rho_t')
+        filt_c = filt(c, st.fields['eval_parent'])      # the callee's own position test, as it evaluates at the call
 
         def reachable(h):
             # a callee may yield sigma itself; that only matters when this function still holds a reference to it
@@ -560,7 +593,7 @@ class EvalContract(LibModel):
                 else:
                     row = eng.new_dict(b, Z.ZMap.fresh(f'row{ordinal}'))
                     R = b.dicts[row.ref]
-                m = self.assume_row(b, c, csig, f, R)
+                m = self.assume_row(b, c, csig, f, R, filt_c)
                 if stream.data.get('own_method'):
                     # a helper generator of the same node (`_evaluate_`): it sets the node's own flags
                     b.assume(z3.Select(b.fields['ywf'], c) == f, Z.good_row(c, m) == self.good(c, m))
@@ -579,7 +612,7 @@ class EvalContract(LibModel):
             return res
 
         outs = []
-        hyp_of = lambda r: z3.And(Z.ext(r, sig), WD(c, r), z3.Implies(lab(c), z3.Or(Z.Den(c, r), f)))
+        hyp_of = lambda r: z3.And(Z.ext(r, sig), WD(c, r), z3.Implies(filt_c, z3.Or(Z.Den(c, r), f)))
         if eng.mode == 'sound':
             mutated = self.scout_mutations(eng, st, body, iteration, callee=c)
             inv0 = self.loop_invariant(eng, st, ordinal, z3.BoolVal(False))
@@ -642,7 +675,8 @@ class EvalContract(LibModel):
         if prod is None:
             return
         c, csig = prod
-        eng.oblige(st, f"rely@L{getattr(node, 'lineno', 0)}", rely_growth(c, new, old, csig),
+        eng.oblige(st, f"rely@L{getattr(node, 'lineno', 0)}",
+                   z3.And(rely_growth(c, new, old, csig, Z.nid(st.ghost['self'])), self.own(st.ghost['self'], new)),
                    line=getattr(node, 'lineno', 0))
 
     def position_assumed(self, st, c):
@@ -803,7 +837,8 @@ class EvalContract(LibModel):
         lbl = z3.Select(st.fields['is_false'], n)
         if eng.mode == 'sound':
             tag = f"row@yield#{ordinal}"
-            eng.oblige(st, f"{tag}/R0-locality", row.subset_of_ids(Z.ids_union(sig.has, Z.SubIds(n))), line=node.lineno)
+            eng.oblige(st, f"{tag}/R0-locality", row.subset_of_ids(with_id(Z.ids_union(sig.has, Z.SubIds(n)), CONSUMER_ID)),
+                       line=node.lineno)
             eng.oblige(st, f"{tag}/R1-consistent", row.consistent_with(sig), line=node.lineno)
             for i, c in enumerate(self.children(n)):
                 eng.oblige(st, f"{tag}/R2-legit.operand{i}", z3.Implies(c != Z.NoneNode, Z.good_row(c, m)),
@@ -814,9 +849,9 @@ class EvalContract(LibModel):
             eng.oblige(st, f"{tag}/R3-label", lbl == z3.Not(self.den(n, rho)),
                        hyp=[Z.ext(rho, m), lab(n), WD(n, rho)],
                        envs=[rho], line=node.lineno)
-            eng.oblige(st, f"{tag}/R4-filter", z3.Implies(z3.And(lab(n), z3.Not(f)), z3.Not(lbl)), line=node.lineno)
+            eng.oblige(st, f"{tag}/R4-filter", z3.Implies(z3.And(st.ghost['filt_self'], z3.Not(f)), z3.Not(lbl)), line=node.lineno)
             eng.oblige(st, f"{tag}/R5-own-id", z3.Implies(Z.is_value(n), row.contains(Z.nid(n))), line=node.lineno)
-            eng.oblige(st, f"{tag}/R5-binds", z3.Map(Z.IMP_D, Binds(n), m.has) == TRUE_IDS, line=node.lineno)
+            eng.oblige(st, f"{tag}/R5-binds", z3.Map(Z.IMP_D, self.binds_ids(st, n), m.has) == TRUE_IDS, line=node.lineno)
             eng.oblige(st, f"cover@yield#{ordinal}", z3.BoolVal(True), kind='cover', line=node.lineno)
             self.extra_yield_obligations(eng, st, v, ordinal, node)
         else:
@@ -825,7 +860,7 @@ class EvalContract(LibModel):
         # resume: the consumer may have consistently extended the yielded dict (rely)
         st = st.clone()
         new = Z.ZMap.fresh('res')
-        st.assume(rely_growth(n, new, row, sig))
+        st.assume(rely_growth(n, new, row, sig, CONSUMER_ID))
         st.dicts[v.ref] = new
         st.log_mut(v.ref, 'rely')
         if v.ref == st.ghost.get('sigma_ref'):
@@ -834,6 +869,14 @@ class EvalContract(LibModel):
 
     def extra_yield_obligations(self, eng, st, v, ordinal, node):
         pass
+
+    def binds_ids(self, st, n):
+        return Binds(n)
+
+    def binds_def(self, n):
+        """ids every row of this node binds (default: its own id when it is a value node)"""
+        return z3.If(Z.is_value(n), z3.Store(z3.K(Z.I, z3.BoolVal(False)), Z.nid(n), z3.BoolVal(True)),
+                     z3.K(Z.I, z3.BoolVal(False)))
 
     def on_exit(self, eng, o: Outcome):
         if eng.mode == 'witness':
